@@ -27,15 +27,24 @@ import (
 	"verif/harness/h"
 )
 
-const clientTimeout = 1 * time.Second
+// A scripted client timeout ("t", only ever the first answer of a SendWrite)
+// is the one place where real time passes: for that call alone the writer's HTTP
+// client timeout is lowered from remotewrite.DefaultTimeout (2 min) to this.
+const scriptedTimeout = 300 * time.Millisecond
 
 type store struct {
-	url  string
+	rm   *remote
 	drop bool
 }
 
+// the API token carries the number of the current SendWrite call, so that a request
+// that reaches the server late (after a client timeout) is not mistaken for one
+// of a later call
 func (s *store) GetFullHTTPConfig(context.Context, platform.ID) (*influxdb.ReplicationHTTPConfig, error) {
-	return &influxdb.ReplicationHTTPConfig{RemoteURL: s.url, RemoteToken: "tok", RemoteBucketName: "bkt",
+	s.rm.mu.Lock()
+	url, tok := s.rm.srv.URL, fmt.Sprintf("e%d", s.rm.epoch)
+	s.rm.mu.Unlock()
+	return &influxdb.ReplicationHTTPConfig{RemoteURL: url, RemoteToken: tok, RemoteBucketName: "bkt",
 		DropNonRetryableData: s.drop}, nil
 }
 func (s *store) UpdateResponseInfo(_ context.Context, _ platform.ID, code int, msg string) error {
@@ -84,6 +93,7 @@ func parseScript(s string) ([]resp, bool) {
 
 type remote struct {
 	mu     sync.Mutex
+	epoch  int
 	script []resp
 	got    [][]byte
 	srv    *httptest.Server
@@ -92,6 +102,10 @@ type remote struct {
 func (rm *remote) handle(w http.ResponseWriter, r *http.Request) {
 	body, _ := io.ReadAll(r.Body)
 	rm.mu.Lock()
+	if r.Header.Get("Authorization") != fmt.Sprintf("Token e%d", rm.epoch) {
+		rm.mu.Unlock() // a straggler of an earlier call
+		return
+	}
 	rm.got = append(rm.got, body)
 	rs := resp{status: 204}
 	if len(rm.script) > 0 {
@@ -112,7 +126,7 @@ func (rm *remote) handle(w http.ResponseWriter, r *http.Request) {
 	case 2:
 		select {
 		case <-r.Context().Done():
-		case <-time.After(5 * clientTimeout):
+		case <-time.After(20 * scriptedTimeout):
 		}
 		return
 	}
@@ -189,7 +203,7 @@ func (r *runner) Op(t []string) string {
 			r.rm = &remote{}
 			r.rm.srv = httptest.NewServer(http.HandlerFunc(r.rm.handle))
 			v, err := replications.VerifNewReplicationQueue(dir, platform.ID(7), 1<<30, seg, age,
-				&store{url: r.rm.srv.URL, drop: drop}, clientTimeout)
+				&store{rm: r.rm, drop: drop})
 			if err != nil {
 				panic(err)
 			}
@@ -219,10 +233,33 @@ func (r *runner) Op(t []string) string {
 		if !ok {
 			return "bad-op"
 		}
+		for i, x := range sc {
+			if x.kind == 2 && i > 0 {
+				return "bad-op" // a scripted timeout must be the first answer of a call
+			}
+		}
+		timed := len(sc) > 0 && sc[0].kind == 2
 		r.rm.mu.Lock()
+		r.rm.epoch++
 		r.rm.script, r.rm.got = sc, nil
 		r.rm.mu.Unlock()
+		if timed {
+			r.v.SetClientTimeout(scriptedTimeout)
+		}
 		wait, retry := r.v.SendWrite()
+		if timed {
+			r.v.SetClientTimeout(remotewrite.DefaultTimeout)
+			// the request is in the socket even if the client gave up first: wait for the handler to see it
+			for i := 0; i < 3000; i++ {
+				r.rm.mu.Lock()
+				n := len(r.rm.got)
+				r.rm.mu.Unlock()
+				if n > 0 {
+					break
+				}
+				time.Sleep(10 * time.Millisecond)
+			}
+		}
 		r.rm.mu.Lock()
 		got := r.rm.got
 		r.rm.mu.Unlock()
@@ -302,9 +339,14 @@ func respTok(r *h.Rand, allowTimeout *int) string {
 
 func script(r *h.Rand, n int, pFail float64, allowTimeout *int) string {
 	var ts []string
+	zero := 0
 	for i := 0; i < n; i++ {
 		if r.Chance(pFail) {
-			ts = append(ts, respTok(r, allowTimeout))
+			at := allowTimeout
+			if i > 0 {
+				at = &zero // a timeout is only ever scripted as the first answer of a call
+			}
+			ts = append(ts, respTok(r, at))
 		} else {
 			ts = append(ts, "h204")
 		}
@@ -334,9 +376,9 @@ func gen(r *h.Rand, tier string, emit func([]string)) {
 		emit(ops)
 	}
 	n := 700
-	timeouts := 6
+	timeouts := 4
 	if tier == "thorough" {
-		n, timeouts = 6000, 40
+		n, timeouts = 6000, 24
 	}
 	for c := 0; c < n; c++ {
 		drop := r.Chance(0.4)
